@@ -162,7 +162,8 @@ def sweep(rep, wd, engine, ctx, label, quick, rng):
                 vals = []
                 for p in ps:
                     if isinstance(p.value_type, yaqltypes.LazyParameterType):
-                        vals.append(('text', ['$', '$ > 1', '$1', 'true'][attempt % 4] if isinstance(p.value_type, yaqltypes.Lambda) else 'foo'))
+                        # (a lambda whose result shows whether it ran per element or once, up front, against the caller's `$`)
+                        vals.append(('text', ['[$, 7]', '$ > 1', '$', 'true'][attempt % 4] if isinstance(p.value_type, yaqltypes.Lambda) else 'foo'))
                         continue
                     cands = corpus[attempt:] + corpus[:attempt]
                     for c in cands:
